@@ -277,24 +277,39 @@ func (x *execState) each(s *tw.Stmt, sc *Scope) signal {
 }
 
 func (x *execState) forLoop(s *tw.Stmt, sc *Scope) signal {
-	if s.Init == nil || s.Cond == nil || s.Post == nil {
-		x.fail(Unspec, "@for with an absent clause")
-		return sigNone
-	}
+	// absent clauses: no loop variable / always true / nothing to apply. The
+	// variable renewed in every pass is the one the init clause binds, or, without
+	// an init clause, the one an assignment in the post clause binds in the loop.
 	ls := NewScope(sc, "for")
-	iv, ok := x.eval(s.Init, ls)
+	loopVar := s.Name
+	if s.Init == nil {
+		loopVar = s.PostName
+	}
+	if s.Init != nil {
+		iv, ok := x.eval(s.Init, ls)
+		if !ok {
+			return sigNone
+		}
+		if r := ls.set(s.Name, iv); r.St != OK {
+			x.fail(r.St, r.Why)
+			return sigNone
+		}
+	}
+	cond := func() (bool, bool) {
+		if s.Cond == nil {
+			return true, true
+		}
+		cv, ok := x.eval(s.Cond, ls)
+		if !ok {
+			return false, false
+		}
+		return cv.Truthy(), true
+	}
+	go1, ok := cond()
 	if !ok {
 		return sigNone
 	}
-	if r := ls.set(s.Name, iv); r.St != OK {
-		x.fail(r.St, r.Why)
-		return sigNone
-	}
-	cv, ok := x.eval(s.Cond, ls)
-	if !ok {
-		return sigNone
-	}
-	if !cv.Truthy() {
+	if !go1 {
 		if s.HasElse {
 			x.Facts["for-else"]++
 			return x.block(s.Else, ls)
@@ -308,19 +323,20 @@ func (x *execState) forLoop(s *tw.Stmt, sc *Scope) signal {
 			x.fail(Unspec, "too many passes for the reference")
 			return sigNone
 		}
+		ls.pass = pass
+		// bindings made in the body belong to a pass; the loop variable is renewed
+		if b, has := ls.vars[loopVar]; has && loopVar != "" {
+			ls.vars[loopVar] = &binding{v: b.v, pass: pass}
+		}
 		if pass > 1 {
-			cv, ok = x.eval(s.Cond, ls)
+			goOn, ok := cond()
 			if !ok {
 				return sigNone
 			}
-			if !cv.Truthy() {
+			if !goOn {
 				break
 			}
 		}
-		// bindings made in the body belong to a pass; the loop variable is renewed
-		prev := ls.vars[s.Name]
-		ls.pass = pass
-		ls.vars[s.Name] = &binding{v: prev.v, pass: pass}
 		sig := x.block(s.Body, ls)
 		if x.st != OK {
 			return sigNone
@@ -336,21 +352,30 @@ func (x *execState) forLoop(s *tw.Stmt, sc *Scope) signal {
 		if sig == sigContinue {
 			x.Facts["continue-fired"]++
 		}
+		if s.Post == nil {
+			continue
+		}
 		// apply post: its value becomes the loop variable's next value
-		ls.vars[s.Name] = &binding{v: ls.vars[s.Name].v, pass: pass}
+		if b, has := ls.vars[loopVar]; has && loopVar != "" {
+			ls.vars[loopVar] = &binding{v: b.v, pass: pass}
+		}
 		pv, ok := x.eval(s.Post, ls)
 		if !ok {
 			return sigNone
 		}
-		if s.PostName != "" && s.PostName != s.Name {
+		switch {
+		case s.PostName != "" && s.PostName != loopVar:
 			// an assignment to another name as the post clause binds it in the loop's
 			// block: what later passes see of it is a matter of pass scoping
 			x.fail(Unspec, "post clause assigns a name other than the loop variable")
 			return sigNone
-		}
-		if r := ls.set(s.Name, pv); r.St != OK {
-			x.fail(r.St, r.Why)
-			return sigNone
+		case s.PostName == "" && s.Init == nil:
+			// no variable to receive the value
+		default:
+			if r := ls.set(loopVar, pv); r.St != OK {
+				x.fail(r.St, r.Why)
+				return sigNone
+			}
 		}
 	}
 	return sigNone
